@@ -370,3 +370,69 @@ def _model_of_real(chem, model):
         return chem.Hvap
     Cn = chem.Cn
     return getattr(Cn, model[-1]) if hasattr(Cn, 'l') and not chem.locked_state else Cn
+
+
+# ----------------------------------------------------------------------------------------------------------------------
+# Added after the seeded change C07_5 was missed: chemicals created with constructor keywords that select models
+# (`method=`, `phase_ref=`, `phase=`, user constants) must come out with free-energy functors that agree with the models and
+# constants they report - the jumps at Tb / Tm are defined from `chem.Hvap`, `chem.Tb`, `chem.Hfus`, `chem.Tm` as READ
+# from the finished object, whatever the constructor did in which order.
+
+def _ctor_configs(tier):
+    out = []
+    IDs = ('Water', 'Ethanol') if tier == 'quick' else ('Water', 'Ethanol', 'Octane', 'Benzene', 'AceticAcid', 'Glycerol')
+    for ID in IDs:
+        for phase_ref in (None, 'l', 'g', 's'):
+            for which in ((0, 1, 2) if tier == 'quick' else range(6)):
+                out.append({'name': f'{ID};phase_ref={phase_ref};method#{which}', 'ID': ID, 'phase_ref': phase_ref, 'which': which})
+    return out
+
+
+@group('C07/B_constructor_keywords', configs=_ctor_configs, mode='B',
+       functions=['thermosteam._chemical:Chemical.__new__', 'thermosteam._chemical:Chemical.set_method', 'thermosteam._chemical:Chemical.reset_free_energies',
+                  'thermosteam._chemical:Chemical._init_energies'],
+       notes='2 (quick) / 6 (thorough) database chemicals x phase_ref in {default, l, g, s} x the first 3 (quick) / 6 (thorough) method names that any of the '
+             'chemical\'s temperature-dependent models (Hvap, Cn.l, Cn.g, Psat, V.l) offers, passed as Chemical(ID, method=..., phase_ref=..., cache=False); '
+             'clauses: H and S jumps at Tb and Tm equal the Hvap/Hfus the finished object reports; dH/dT = Cn by central differences (1e-4 relative)')
+def constructor_keywords(w, cfg):
+    import thermosteam as tmo
+    ID = cfg['ID']
+    stock = tmo.Chemical(ID, cache=False)
+    names = []
+    for model in (stock.Hvap, stock.Cn.l, stock.Cn.g, stock.Psat, stock.V.l):
+        for mth in getattr(model, 'all_methods', ()) or ():
+            if mth not in names: names.append(mth)
+    names = sorted(names)
+    if cfg['which'] >= len(names):
+        w.ensure('vacuity guard: fewer methods than requested (nothing to check)', True); return
+    method = names[cfg['which']]
+    kw = {'method': method, 'cache': False}
+    if cfg['phase_ref']: kw['phase_ref'] = cfg['phase_ref']
+    try:
+        chem = tmo.Chemical(ID, **kw)
+    except Exception as e:
+        w.ensure('the constructor accepts a method name that one of the models offers', False, exception=f'{type(e).__name__}: {e}'); return
+    P = chem.P_ref if hasattr(chem, 'P_ref') else 101325.
+    Tb, Tm = chem.Tb, chem.Tm
+    H, S = chem.H, chem.S
+    w.note(method=method, Hvap_method=getattr(chem.Hvap, 'method', None))
+    try:
+        Hvap_Tb = chem.Hvap(Tb)
+    except Exception:
+        Hvap_Tb = None
+    if Hvap_Tb is not None and Tb:
+        w.ensure('H_g(Tb) - H_l(Tb) = Hvap(Tb) of the finished chemical', w.eq(H('g', Tb, P) - H('l', Tb, P), Hvap_Tb), got=H('g', Tb, P) - H('l', Tb, P), Hvap=Hvap_Tb)
+        w.ensure('S_g(Tb) - S_l(Tb) = Hvap(Tb)/Tb of the finished chemical', w.eq(S('g', Tb, P) - S('l', Tb, P), Hvap_Tb / Tb), got=S('g', Tb, P) - S('l', Tb, P), expect=Hvap_Tb / Tb)
+    if chem.Hfus is not None and Tm:
+        w.ensure('H_l(Tm) - H_s(Tm) = Hfus of the finished chemical', w.eq(H('l', Tm, P) - H('s', Tm, P), chem.Hfus))
+        w.ensure('S_l(Tm) - S_s(Tm) = Hfus/Tm of the finished chemical', w.eq(S('l', Tm, P) - S('s', Tm, P), chem.Hfus / Tm))
+    ref = chem.phase_ref
+    w.ensure('H(reference phase, T_ref) = H_ref', w.eq(H(ref, chem.T_ref, P), chem.H_ref))
+    for ph, T in (('l', 0.5 * (Tm + Tb) if Tm and Tb else 300.), ('g', (Tb or 350.) + 40.)):
+        try:
+            dT = 1e-3 * T
+            slope = (H(ph, T + dT, P) - H(ph, T - dT, P)) / (2 * dT)
+            cn = getattr(chem.Cn, ph)(T)
+        except Exception:
+            continue
+        w.ensure(f'dH_{ph}/dT = Cn_{ph} (central difference)', abs(slope - cn) <= 1e-4 * max(abs(cn), 1.), slope=slope, Cn=cn)
